@@ -7,12 +7,13 @@ structure W where
   budget : Nat
   buf : Bytes
   disk : Bytes
+  log : List (Nat × Nat) := []     -- every raw write: (bytes offered, bytes that landed); observation only
 
 /-- `File::write_all` under a size budget: the prefix that fits lands; `true` iff everything landed -/
 def W.raw (w : W) (d : Bytes) : W × Bool :=
   let room := w.budget - w.disk.length
-  if d.length ≤ room then ({ w with disk := w.disk ++ d }, true)
-  else ({ w with disk := w.disk ++ d.take room }, false)
+  if d.length ≤ room then ({ w with disk := w.disk ++ d, log := w.log ++ [(d.length, d.length)] }, true)
+  else ({ w with disk := w.disk ++ d.take room, log := w.log ++ [(d.length, room)] }, false)
 
 def W.flushBuf (w : W) : W × Bool :=
   let r := w.raw w.buf
@@ -44,7 +45,7 @@ def step (s : S) (c : Cmd) : S :=
   | .rename => { s with renamed := true }
   | .drop => { s with w := s.w.flushBuf.1 }
 
-def init (cap budget : Nat) : S := ⟨⟨cap, budget, [], []⟩, true, false⟩
+def init (cap budget : Nat) : S := ⟨⟨cap, budget, [], [], []⟩, true, false⟩
 def exec (s : S) (p : List Cmd) : S := p.foldl step s
 
 def fixedProg (chunks : List Bytes) : List Cmd := chunks.map .write ++ [.flush, .rename, .drop]
